@@ -69,7 +69,7 @@ def lin_case(draw):
         spec["high_scale"] = draw(st.one_of(st.floats(1, 10, exclude_min=True), st.sampled_from([1.1, 2, math.nextafter(1, 2)])))
     step = st.fixed_dictionaries({
         "util": around([low]), "alloc": around([high]),
-        "demand": st.one_of(st.none(), demand0), "supply": st.one_of(st.integers(0, 10**6), st.floats(0, 1e9)),
+        "demand": st.one_of(st.none(), demand0), "supply": st.one_of(st.none(), st.none(), st.integers(0, 10**6), st.floats(0, 1e9), st.integers(0, 20)),
         "interval": st.one_of(st.none(), pos),
     })
     spec["demand0"] = draw(demand0)
@@ -95,7 +95,9 @@ def run_lin(spec) -> Result:
         res.fail("target", "controller.target is not the pool given")
     nt = False
     for i, s in enumerate(spec["steps"]):
-        pool.utilisation, pool.allocation, pool.supply = s["util"], s["alloc"], s["supply"]
+        pool.utilisation, pool.allocation = s["util"], s["alloc"]
+        if s["supply"] is not None:  # None: the supply is the same as in the previous step
+            pool.supply = s["supply"]
         if s["demand"] is not None:
             pool._demand = s["demand"]
         interval = s["interval"] if s["interval"] is not None else spec["interval"]
@@ -132,7 +134,7 @@ def run_lin(spec) -> Result:
             if branch == "none" and (after != before or len(pool.writes) != nwrites):
                 res.fail("linear-change-without-condition", f"{tag}: demand {before!r} -> {after!r} (writes: {pool.writes[nwrites:]})")
         else:
-            sup = s["supply"]
+            sup = pool.supply
             allowed = {"down": [spec["low_scale"]], "up": [spec["high_scale"]], "none": [1],
                        "both": [spec["low_scale"], spec["high_scale"]]}[branch]
             ok = any(abs(Fraction(after) - Fraction(sup) * Fraction(sc)) <= Fraction(ulp(sup * sc)) for sc in allowed)
